@@ -16,6 +16,9 @@
 
 #include <xmmintrin.h>
 
+#include <fcntl.h>
+#include <unistd.h>
+
 #include <atomic>
 #include <chrono>
 #include <memory>
@@ -144,6 +147,8 @@ __attribute__((noinline)) static void frame(task_ctx& c, int depth)
     if (depth > 0) ev("pop").i("t", c.t).done();
 }
 
+static bool g_guard = false;
+static int g_devnull = -1;
 static void task_body(task_ctx* c, std::ptrdiff_t want_stack, std::atomic<int>* done)
 {
     char here;
@@ -158,7 +163,32 @@ static void task_body(task_ctx* c, std::ptrdiff_t want_stack, std::atomic<int>* 
         volatile char* p = &here;
         for (std::ptrdiff_t off = 4096; off < usable; off += 4096) p[-off] = (char) off;
     }
-    ev("start").i("t", c->t).i("clean", clean).i("size_ok", sz == want_stack).i("lo", (long long) (lo_page - base)).i("hi", (long long) (hi_page - base)).i("w", (long long) pika::get_worker_thread_num()).done();
+    // with guard pages the accessible extent below this frame can be measured without risking a fault:
+    // write(2) from an inaccessible page fails with EFAULT.  The whole configured size must be usable
+    bool extent_ok = true;
+    if (g_guard)
+    {
+        std::ptrdiff_t pages = 0;
+        std::uintptr_t a = (top & ~std::uintptr_t(4095)) - 4096;    // the page below this frame's page
+        // (a pipe, not /dev/null: the null device never looks at the buffer)
+        int pfd[2];
+        if (::pipe2(pfd, O_NONBLOCK) == 0)
+        {
+            char sink;
+            while (pages < (sz >> 12) + 4 && ::write(pfd[1], reinterpret_cast<void*>(a), 1) == 1)
+            {
+                if (::read(pfd[0], &sink, 1) != 1) break;
+                ++pages;
+                a -= 4096;
+            }
+            ::close(pfd[0]);
+            ::close(pfd[1]);
+        }
+        else pages = (sz >> 12);
+        extent_ok = pages >= (sz >> 12) - 1;
+        if (!extent_ok) ev("extent").i("t", c->t).i("pages_below", pages).i("want", (sz >> 12) - 1).done();
+    }
+    ev("start").i("t", c->t).i("clean", clean).i("size_ok", sz == want_stack && extent_ok).i("lo", (long long) (lo_page - base)).i("hi", (long long) (hi_page - base)).i("w", (long long) pika::get_worker_thread_num()).done();
     c->id = pika::threads::detail::get_self_id();
     // own floating-point control state: rounding mode chosen by the task number
     if (g_fpmode)
@@ -197,6 +227,9 @@ int main(int argc, char** argv)
     av.push_back(argv[0]);
     for (int i = 6; i < argc; ++i) av.push_back(argv[i]);
     int ac = (int) av.size();
+    for (int i = 6; i < argc; ++i)
+        if (std::string(argv[i]) == "--pika:ini=pika.stacks.use_guard_pages=1") g_guard = true;
+    g_devnull = ::open("/dev/null", O_WRONLY);
     pika::start(nullptr, ac, av.data());
     vlog::rng R(seed * 279470273 + 5);
     {
